@@ -3,7 +3,7 @@ import json, os
 import vlib
 
 PROPS = ["C06", "C20"]
-EVERY = {"quick": 300, "thorough": 400}
+EVERY = {"quick": 500, "thorough": 600}
 NSIM = {"quick": 15, "thorough": 300}   # each walk yields one behaviour per successor of its last state (~45)
 
 
